@@ -98,6 +98,12 @@ Definition sw_atom (prefix alpha : string) := b_atom (sweep prefix alpha).
 Definition show_match (r : pyres bool) : string := match r with Ok true => "1" | Ok false => "0" | Err _ => "E" end.
 Definition b_match (q : qatom) (atoms : list latom) (expected : string) : bool :=
   String.eqb (String.concat "" (map (fun a => show_match (match_atom q a)) atoms)) expected.
+(* sparse form: the positions (0-based) of the atoms that match, and of those on which the comparison raises *)
+Fixpoint positions {A} (f : A -> bool) (l : list A) (i : Z) : list Z :=
+  match l with [] => [] | x :: r => if f x then i :: positions f r (i + 1)%Z else positions f r (i + 1)%Z end.
+Definition b_match_idx (q : qatom) (atoms : list latom) (trues errs : list Z) : bool :=
+  list_eqb Z.eqb (positions (fun a => match match_atom q a with Ok true => true | _ => false end) atoms 0%Z) trues &&
+  list_eqb Z.eqb (positions (fun a => match match_atom q a with Err _ => true | _ => false end) atoms 0%Z) errs.
 Definition b_bmatch (q : qbond) (bonds : list lbond) (expected : string) : bool :=
   String.eqb (String.concat "" (map (fun b => if qbond_match q b then "1" else "0") bonds)) expected.
 
